@@ -26,7 +26,7 @@ def discardable(c):
     return c in "GPK"
 
 
-def build(kinds, breaks, n_widths, n_indents):
+def build(kinds, breaks, n_widths, n_indents, prior=0):
     def f(sym, bind):
         def iv(name, lo, hi):
             if sym.consts is not None:
@@ -61,10 +61,13 @@ def build(kinds, breaks, n_widths, n_indents):
         widths = [iv(f"line_width{j}", 0, W) for j in range(n_widths)]
         indents = [iv(f"indent{j}", -W, W) for j in range(n_indents)]
         lb = Agg([Ref(Cell(params)), Ref(Cell(Agg([scaled(x) for x in widths]))), Ref(Cell(Agg([scaled(x) for x in indents]))), Enum(I(0), {}, "Option"), Opaque("hyphenator")])
-        v_list = Ref(Cell(Agg([])))
+        # material already on the vertical list before the paragraph: `prior` boxes with arbitrary depth
+        prior_boxes = [Enum(I(V_HBOX), {V_HBOX: [Agg([scaled(iv(f"prior_h{j}", 0, W)), scaled(iv(f"prior_w{j}", 0, W)), scaled(iv(f"prior_d{j}", 0, W)), scaled(I(0)), Agg([]), Agg([I(0), I(0)]), Enum(I(0), {}, "GlueOrder")])]}, "Vertical")
+                       for j in range(prior)]
+        v_list = Ref(Cell(Agg(prior_boxes)))
         h_list = Ref(Cell(Agg(vals)))
         bps = Ref(Cell(Agg([I(b) for b in breaks])))
-        args = dict(kinds=kinds, breaks=list(breaks), items=vals, pen=pen, ls=ls, rs=rs, widths=widths, indents=indents, consts=sym.consts)
+        args = dict(kinds=kinds, breaks=list(breaks), items=vals, pen=pen, ls=ls, rs=rs, widths=widths, indents=indents, consts=sym.consts, prior=prior)
         return args, [Ref(Cell(lb)), Ref(Cell(Opaque("font_repo"))), v_list, h_list, bps]
     return f
 
@@ -109,7 +112,10 @@ def post(a, ret, st):
     conj = []
     start = 0
     pending_post = []
-    vi = 0  # cursor in v_list
+    vi = a.get("prior", 0)  # cursor in v_list: what was there before the paragraph stays
+    for j in range(vi):
+        if not _is(v_list.fields[j], V_HBOX):
+            return tm.FALSE
     for li, bp in enumerate(breaks):
         lst, pw = packs[li][1], packs[li][2]
         got = list(lst.fields)
@@ -184,7 +190,7 @@ def post(a, ret, st):
         conj.append(tm.eq(pw.pay[0][0].fields[0], wj))
         ind = (a["indents"][li] if li < len(a["indents"]) else (a["indents"][-1] if a["indents"] else I(0)))
         # --- the vertical list: [baseline glue] box [penalty]
-        if li > 0:
+        if li > 0 or a.get("prior", 0) > 0:
             if vi >= len(v_list.fields) or not _is(v_list.fields[vi], V_GLUE):
                 return tm.FALSE
             vi += 1
@@ -221,16 +227,16 @@ def post(a, ret, st):
     return tm.and_(*conj)
 
 
-def ob(kinds, breaks, n_widths=2, n_indents=1, tier="quick"):
-    name = f"c12_post_line_break_{kinds}_at_" + "_".join(str(b) for b in breaks) + ("" if (n_widths, n_indents) == (2, 1) else f"_w{n_widths}i{n_indents}")
+def ob(kinds, breaks, n_widths=2, n_indents=1, tier="quick", prior=0):
+    name = f"c12_post_line_break_{kinds}_at_" + "_".join(str(b) for b in breaks) + ("" if (n_widths, n_indents) == (2, 1) else f"_w{n_widths}i{n_indents}") + (f"_prior{prior}" if prior else "")
     return dict(engine="B", name=name, crates=KP, fn=("boxworks-knuthplass", "post_line_break", "LineBreaker", None), args=[],
-                build_args=build(kinds, breaks, n_widths, n_indents), unroll=len(kinds) + len(breaks) + 6, tier=tier,
+                build_args=build(kinds, breaks, n_widths, n_indents, prior), unroll=len(kinds) + len(breaks) + 8, tier=tier,
                 env_models=[(r"^(?:boxworks::ds::)?HBox::pack::<.*>$", env_pack)], post=post, post_state=True, prune=True,
                 witnesses=[("left skip is zero", lambda a: tm.and_(*[tm.eq(x, I(0)) for x in a["ls"]])),
                            ("left skip is not zero", lambda a: tm.not_(tm.eq(a["ls"][0], I(0))))],
                 funcs=["boxworks_knuthplass::LineBreaker::post_line_break (generic MIR; HBox::pack replaced by a recording stub, Vec/slice/iterator models; From/Into impls, Glue::is_zero, Scaled ops from the dump)"],
                 bound=(f"horizontal list of shape {kinds} (R rule, G glue, P penalty, K explicit kern, k font kern) broken at {list(breaks)} (the last one is the paragraph end), every amount symbolic, "
-                       f"{n_widths} line width(s), {n_indents} indent(s), symbolic left/right skip and club/widow/inter-line/broken penalties, empty vertical list before the paragraph"),
+                       f"{n_widths} line width(s), {n_indents} indent(s), symbolic left/right skip and club/widow/inter-line/broken penalties, {prior} box(es) on the vertical list before the paragraph"),
                 assumes=["HBox::pack is a stub that records its arguments and returns a box of arbitrary height/depth holding the list (what it computes is C15)"])
 
 
@@ -402,7 +408,7 @@ def family(n_items, tier):
     return out
 
 
-HAND = [ob("RGR", (3,)), ob("RGRGR", (1, 3, 5), n_widths=1, n_indents=0)]
+HAND = [ob("RGR", (3,)), ob("RGRGR", (1, 3, 5), n_widths=1, n_indents=0), ob("RGR", (1, 3), prior=1), ob("RGR", (3,), prior=2), ob("RPGR", (1, 4), prior=1)]
 _seen = set()
 OBLIGATIONS = []
 for _o in [SPACE, ADJUST] + HAND + disc_family() + family(3, "quick") + family(4, "quick") + family(5, "quick") + family(6, "thorough"):
